@@ -396,7 +396,65 @@ def abandoned_setters(rng, n):
     return out
 
 
+def done_conditions(ctx, n):
+    """`task.done` is a condition like any other: once the task has ended - by finishing, failing, being cancelled, or being
+    CLOSED BEFORE ITS FIRST TURN because its scope was left in the turn that spawned it - it holds, alone and inside
+    `&`, `|`, `~`, and whoever awaits it then (or enters `until(task.done)`) continues in the same time step"""
+    import usim
+    from usim import time
+    from harness import watch
+    rng = ctx.rng
+    for _ in range(n):
+        how = rng.choice(['closed-unstarted', 'closed-unstarted', 'cancelled-unstarted', 'finished', 'failed', 'closed-running'])
+        form = rng.choice(['plain', 'and', 'or', 'not-not', 'until'])
+        case = {'done_condition': dict(end=how, form=form)}
+        log, holder = [], []
+
+        async def child():
+            if how == 'finished':
+                return 1
+            if how == 'failed':
+                raise IndexError('child')
+            await (time + 50)
+
+        async def main():
+            await (time + 2)
+            try:
+                async with usim.Scope() as scope:
+                    holder.append(scope.do(child()))
+                    if how == 'cancelled-unstarted':
+                        holder[0].cancel()
+                    if how == 'closed-running':
+                        await (time + 1)
+                    if how in ('closed-unstarted', 'closed-running'):
+                        raise KeyError('body')
+            except (KeyError, usim.Concurrent):
+                pass
+            t0 = time.now
+            done, flag = holder[0].done, usim.Flag()
+            await flag.set()
+            cond = {'plain': done, 'and': done & flag, 'or': done | ~flag, 'not-not': ~~done, 'until': done}[form]
+            log.append(('holds', bool(cond), bool(~cond)))
+            if form == 'until':
+                async with usim.until(cond):
+                    await (time + 7)
+            else:
+                await cond
+            log.append(('continued', time.now - t0))
+        try:
+            watch.run(main(), till=40)
+        except BaseException as e:   # noqa
+            ctx.fail(case, 'raised %r after %r' % (e, log), family='done-conditions')
+            continue
+        ctx.count(case, nontrivial=True)
+        ctx.bump('family:done-conditions')
+        if log != [('holds', True, False), ('continued', 0)]:
+            ctx.fail(case, 'a task that ended (%s): its `done` condition used as %r: observed %r, expected it to hold and the '
+                           'waiter to continue in the same time step' % (how, form, log), family='done-conditions')
+
+
 def run(ctx):
+    done_conditions(ctx, ctx.n(40, 400))
     machine_prop.run(ctx, FAMILIES, MONITORS, extra_scenarios=revert_family(ctx.rng, ctx.n(80, 1500)) +
                      abandoned_setters(ctx.rng, ctx.n(40, 800)))
     # condition objects used by several simulations in a row / by a nested one (the family lives in C01)
